@@ -1551,4 +1551,155 @@ theorem mv_source_gone_spec : mv_source_gone_Statement Variant.spec := by
           exact absurd ((Prod.mk.inj hb).2 ▸ hun) (unlink_ne_ok _ _ _)
       · rename_i r hr
         exact absurd hb (hr fs')
+
+/-! ### plain (link-free) paths -/
+
+theorem list_rev_induction {α : Type} {motive : List α → Prop} (nil : motive [])
+    (snoc : ∀ l a, motive l → motive (l ++ [a])) : ∀ l, motive l := by
+  intro l
+  have : ∀ n, ∀ l : List α, l.length = n → motive l := by
+    intro n
+    induction n with
+    | zero =>
+      intro l hl
+      have : l = [] := List.length_eq_zero_iff.mp hl
+      subst this; exact nil
+    | succ n ih =>
+      intro l hl
+      rcases List.eq_nil_or_concat l with rfl | ⟨l', a, rfl⟩
+      · simp at hl
+      · simp only [List.concat_eq_append] at hl ⊢
+        exact snoc l' a (ih l' (by simp at hl; omega))
+  exact this _ l rfl
+
+/-- a path all of whose non-empty prefixes are groups resolves to itself -/
+theorem resolveN_groups {fs : FS} {g : String} (hf : (getFile fs g).isSome) (n : Nat) :
+    ∀ (k : Path), (∀ q, under q k = true → q ≠ [] → IsGroup (lookupE fs g q)) → resolveN fs n g k = some (g, k) := by
+  intro k
+  induction k using list_rev_induction with
+  | nil =>
+    intro _
+    rw [resolveN_nil]; unfold start
+    cases hg : getFile fs g with
+    | none => simp [hg] at hf
+    | some _ => rfl
+  | snoc k x ih =>
+    intro hk
+    rw [resolveN_snoc, ih (fun q hq hne => hk q (under_trans hq (under_append k [x])) hne)]
+    obtain ⟨o, a, he⟩ := hk (k ++ [x]) (under_refl _) (by simp)
+    simp [stepWith, he]
+
+theorem under_of_common {p q k : Path} (hp : under p k = true) (hq : under q k = true) :
+    under p q = true ∨ under q p = true := by
+  obtain ⟨r, hr⟩ := (under_iff _ _).1 hp
+  obtain ⟨s, hs⟩ := (under_iff _ _).1 hq
+  have h1 : p <+: k := ⟨r, hr.symm⟩
+  have h2 : q <+: k := ⟨s, hs.symm⟩
+  rcases List.prefix_or_prefix_of_prefix h1 h2 with h3 | h3
+  · obtain ⟨t, ht⟩ := h3; exact Or.inl ((under_iff _ _).2 ⟨t, ht.symm⟩)
+  · obtain ⟨t, ht⟩ := h3; exact Or.inr ((under_iff _ _).2 ⟨t, ht.symm⟩)
+
+/-- **copy_reads_equal for `mv` inside one file**, between plain paths (no link on the source path
+nor on the destination's parent path): the destination reads what the source read. -/
+theorem mv_reads_equal_plain {fs : FS} (hw : WF fs) {v : Variant} {sf : String} {sp dp : Path} {ow : Bool} {fs' : FS}
+    (hsrc : ∀ q, under q sp = true → q ≠ [] → IsGroup (lookupE fs sf q))
+    (hdst : ∀ q, under q dp.dropLast = true → q ≠ [] → IsGroup (lookupE fs sf q))
+    (h : mv fs v sf sp sf dp ow = (fs', .ok)) {c : Nat} (hr : Reads fs sf sp c) : Reads fs' sf dp c := by
+  unfold mv at h
+  obtain ⟨hfile, hnw, hb⟩ := copyOp_opened h
+  simp only [if_true, Bool.or_true] at hb
+  -- the file was not truncated
+  have hfs1 : afterOpen fs sf ow = fs := by
+    unfold afterOpen
+    have : ¬ (((getFile fs sf).isNone || ow) = true) := fun hc => hnw ⟨hc, rfl⟩
+    simp [this]
+  rw [hfs1] at hb
+  obtain ⟨S, hs, fs2, D, hres, hg, _, hp, hd, hu, hun⟩ := hardLinkSame_ok hb
+  simp only [if_true] at hun
+  -- the source is its own canonical location
+  have hS : sp = S := by
+    have := (Resolves.det ⟨LINKFUEL, hres⟩ ⟨LINKFUEL, resolveN_groups hfile LINKFUEL sp hsrc⟩)
+    exact (Prod.mk.inj this).2.symm
+  subst hS
+  obtain ⟨h1, P, x, hdp, hsub, hresP, hlk, _, _, hdest, habs⟩ := placeAt_facts hw hp
+  have hfile2 : (getFile fs2 sf).isSome := hsub.1 sf hfile
+  have hgrp2 : ∀ q, under q dp.dropLast = true → q ≠ [] → IsGroup (lookupE fs2 sf q) := by
+    intro q hq hne
+    obtain ⟨o, a, he⟩ := hdst q hq hne
+    exact ⟨o, a, hsub.2 _ _ _ he⟩
+  have hP : dp.dropLast = P := by
+    have := hresP.det ⟨LINKFUEL, resolveN_groups hfile2 LINKFUEL _ hgrp2⟩
+    exact (Prod.mk.inj this).2.symm
+  subst hP
+  have hD : dp = D := by
+    rw [hdest] at hd
+    have := Option.some.inj hd
+    rw [← this, ← hdp]
+  subst hD
+  rw [← hdp] at hlk habs
+  -- the unlinked region is the source path itself
+  obtain ⟨y, Ps, hh, hsp, hresS, hg2, rfl⟩ := unlink_ok hun
+  have hsrc2 : ∀ q, under q sp.dropLast = true → q ≠ [] → IsGroup (lookupE fs2 sf q) := by
+    intro q hq hne
+    have hq' : under q sp = true := by
+      rw [hsp]; exact under_trans hq (under_append _ _)
+    obtain ⟨o, a, he⟩ := hsrc q hq' hne
+    exact ⟨o, a, hsub.2 _ _ _ he⟩
+  have hPs : sp.dropLast = Ps := by
+    have := (Resolves.det ⟨LINKFUEL, hresS⟩ ⟨LINKFUEL, resolveN_groups hfile2 LINKFUEL _ hsrc2⟩)
+    exact (Prod.mk.inj this).2.symm
+  subst hPs
+  rw [← hsp]
+  -- lookups in the final file
+  have hfin : ∀ k, lookupE (setFile fs2 sf ⟨removeUnder sp hh.entries, hh.next⟩) sf k =
+      if under sp k then none else lookupE fs2 sf k := by
+    intro k
+    rw [lookupE_setFile_same, lookupK_removeUnder]
+    unfold lookupE; rw [hg2]
+  -- the destination is not an ancestor of the source (it did not exist), nor below it
+  have hdp_ne : dp ≠ [] := by rw [hdp]; simp
+  have hnot : under dp sp = false := by
+    cases hc : under dp sp with
+    | false => rfl
+    | true =>
+      obtain ⟨o, a, he⟩ := hsrc dp hc hdp_ne
+      rw [habs] at he; simp at he
+  have hoff : ∀ r, under sp (dp ++ r) = false := by
+    intro r
+    cases hc : under sp (dp ++ r) with
+    | false => rfl
+    | true =>
+      rcases under_of_common hc (under_append dp r) with h' | h'
+      · rw [hu] at h'; simp at h'
+      · rw [hnot] at h'; simp at h'
+  -- what the source read
+  have hra := reads_at_resolved hr hres
+  obtain ⟨r1, ⟨o2, a2, r2⟩, r3⟩ := hra
+  obtain ⟨oid, a, he, hf⟩ := coolerEntry_some r1
+  simp only at he r2 r3
+  have look : ∀ r, lookupE (setFile fs2 sf ⟨removeUnder sp hh.entries, hh.next⟩) sf (dp ++ r) = lookupE fs sf (sp ++ r) := by
+    intro r
+    rw [hfin, hoff r, hlk r, lookupK_getRegion]
+    unfold lookupE; rw [hg]; simp
+  have e0 := look []
+  simp only [List.append_nil] at e0
+  rw [reads_iff]
+  refine ⟨(sf, dp), ⟨LINKFUEL, ?_⟩, ?_, ⟨o2, a2, ?_⟩, ?_⟩
+  · apply resolveN_groups
+    · rw [getFile_setFile]; simp
+    · intro q hq hne
+      by_cases hqe : q = dp
+      · subst hqe; rw [e0, he]; exact ⟨_, _, rfl⟩
+      · have hq' : under q dp.dropLast = true := by
+          rw [hdp] at hq hqe; exact prefix_of_snoc hq hqe
+        rw [hfin]
+        have : under sp q = false := by
+          cases hc : under sp q with
+          | false => rfl
+          | true => rw [under_trans hc hq] at hu; simp at hu
+        simp only [this]
+        exact hgrp2 q hq' hne
+  · simp only; rw [e0, he]; simpa [coolerEntry] using hf
+  · simp only; rw [look, r2]
+  · simp only; rw [look, r3]
 end Cooler.C15
